@@ -101,7 +101,13 @@ class Printer:
         if k == "choice":
             return (g() + "|" + g()).join(self.expr(s) for s in e[1])
         if k == "seq":
-            return g().join(self.expr(p) for p in e[1])
+            def part(p):
+                t = self.expr(p)
+                # redundant parentheses (fancy layouts only; never around `$`-less empties)
+                if self.fancy and self.rnd is not None and t and self.rnd.random() < 0.08:
+                    return "(" + g() + t + g() + ")"
+                return t
+            return g().join(part(p) for p in e[1])
         if k == "group":
             return "(" + self.expr(e[1]) + ")"
         if k == "opt":
